@@ -605,7 +605,8 @@ pub const LIT_SPELLINGS: &[&str] = &["5", "5u8", "0x1f", "1.5", "1e3f32", "\"s\"
 pub fn run_c13(seed: u64, n: usize, out: &mut Out) {
     let base = Rng::new(seed ^ 0xC13);
     let tys = syn_types();
-    let mut srcs: Vec<String> = vec!["x".into(), "x()".into(), "x(a, b::c)".into(), "x(a, \"s\")".into(), "x(a = 1)".into(), "x(::a, r#b)".into()];
+    let mut srcs: Vec<String> = vec!["x".into(), "x()".into(), "x(a, b::c)".into(), "x(a, \"s\")".into(), "x(a = 1)".into(), "x(::a, r#b)".into(),
+        "x(a, b, a)".into(), "x(a::b, a::b)".into(), "x(a, a, a, b)".into(), "x(1, 1)".into(), "x(\"s\", \"s\")".into()];
     for v in SYN_VALUES {
         srcs.push(format!("x = {}", v));
         srcs.push(format!("x = \"{}\"", v.replace('\\', "\\\\").replace('"', "\\\"")));
